@@ -235,7 +235,7 @@ fn continuous_doors(r: &mut Rng) -> Case {
     let runner = PipeRunner::new(vec![Box::new(CompilerPipe::new()), Box::new(PreModelPipe::new()), Box::new(ModelPipe::new()), Box::new(LinearModelPipe::new()), Box::new(RealSolver::new())]);
     let o_pipe = guard(&mut || match runner.run(PipeableData::String(text.clone()), &PipeContext::new(vec![], &fns)) {
         Ok(mut res) => match res.pop() { Some(PipeableData::RealSolution(sol)) => ("solution".to_string(), Some(sol.value())), _ => ("(pipe-no-solution)".into(), None) },
-        Err((e, _)) => { let s = format!("{:?}", e); (if s.contains("Infeasible") { "(infeasible)".into() } else if s.contains("Unbounded") { "(unbounded)".into() } else { format!("(pipe-error {})", sx::q(&s.chars().take(60).collect::<String>())) }, None) }
+        Err((e, _)) => { (match &e { rooc::pipe::PipeError::SolverError(se) => crate::props::c03::solver_error(se), other => { let s = format!("{:?}", other); format!("(pipe-error {})", sx::q(&s.chars().take(60).collect::<String>())) } }, None) }
     });
     let o_direct = guard(&mut || RoocParser::new(text.clone()).parse_and_transform(vec![], &fns).ok().and_then(|tm| Linearizer::linearize(tm).ok())
         .map(|lm| real_outcome(rooc::solve_real_lp_problem_clarabel(&lm))).unwrap_or(("(compile-error)".into(), None)));
@@ -256,6 +256,9 @@ fn continuous_doors(r: &mut Rng) -> Case {
         c.sig = Some(if text_model.domain().values().all(|d| !d.is_used()) { "clarabel-panic-no-variables".into() } else { "clarabel-panic".into() });
     } else if all.iter().any(|o| o.0 != o_direct.0) {
         c.impl_violation = Some(format!("real-solver front doors disagree on the verdict: {}", c.imp));
+        // root cause flag: Clarabel gives up with `Numerical error` on one door's LP and proves infeasibility on the other's
+        // (the builder keeps declared-but-unused variables as extra columns, which changes Clarabel's numerics)
+        if all.iter().all(|o| o.0 == "(infeasible)" || o.0.contains("Numerical error")) { c.sig = Some("clarabel-numerical-error-on-infeasible".into()); }
     } else if !matches!(m.objective().objective_type, OptimizationType::Satisfy) {
         if let Some(v) = o_direct.1 {
             if all.iter().any(|o| o.1.map(|w| (w - v).abs() > 1e-5 * v.abs().max(1.0)).unwrap_or(true)) {
